@@ -412,7 +412,12 @@ def describe_cond(body, term, label):
         return (not v) if neg else v
 
     if c.kind == "call":
-        return "call:%s=%s" % (short_callee(c.call.resolved), "true" if pol() else "false")
+        nm, v = short_callee(c.call.resolved), pol()
+        # one spelling per predicate pair: x.is_some() == !x.is_none(), r.is_ok() == !r.is_err()
+        for a_, b_ in (("Option::is_some", "Option::is_none"), ("Result::is_ok", "Result::is_err")):
+            if nm == a_:
+                nm, v = b_, not v
+        return "call:%s=%s" % (nm, "true" if v else "false")
     if c.kind == "field":
         return "field:%s=%s" % (c.trace.last_field, "true" if pol() else "false")
     if c.kind == "discr":
